@@ -3,6 +3,7 @@ package codecrun
 import (
 	"fmt"
 	"reflect"
+	"runtime/debug"
 	"strings"
 
 	"github.com/TarsCloud/TarsGo/tars/protocol/codec"
@@ -28,7 +29,7 @@ func Encode(c Codec) (data []byte, outcome string) {
 func Decode(target Codec, data []byte) (outcome string, pos int) {
 	defer func() {
 		if r := recover(); r != nil {
-			outcome = fmt.Sprintf("panic: %v", r)
+			outcome = fmt.Sprintf("panic: %v @%s", r, panicFrame(debug.Stack()))
 		}
 	}()
 	rd := codec.NewReader(data)
@@ -37,6 +38,45 @@ func Decode(target Codec, data []byte) (outcome string, pos int) {
 	}
 	rest := rd.Next(1 << 40)
 	return "ok", len(data) - len(rest)
+}
+
+// panicFrame extracts the function in which the panic was raised (first non-runtime frame below
+// the panic call), normalised: generated methods become "generated.<Method>".
+func panicFrame(stack []byte) string {
+	lines := strings.Split(string(stack), "\n")
+	seenPanic := false
+	for _, l := range lines {
+		if strings.HasPrefix(l, "panic(") {
+			seenPanic = true
+			continue
+		}
+		if !seenPanic || strings.HasPrefix(l, "\t") || strings.HasPrefix(l, "runtime.") || l == "" {
+			continue
+		}
+		fn := l
+		if i := strings.LastIndex(fn, "("); i > 0 {
+			fn = fn[:i]
+		}
+		if i := strings.LastIndex(fn, "/"); i >= 0 {
+			fn = fn[i+1:]
+		}
+		if strings.HasPrefix(fn, "codec.") {
+			return fn
+		}
+		if i := strings.LastIndex(fn, "."); i >= 0 {
+			return "generated" + fn[i:]
+		}
+		return fn
+	}
+	return "unknown"
+}
+
+// PanicLocus returns the function recorded by Decode for a panic outcome.
+func PanicLocus(outcome string) string {
+	if i := strings.LastIndex(outcome, " @"); i >= 0 {
+		return outcome[i+2:]
+	}
+	return "unknown"
 }
 
 // PanicClass maps a Go panic message to the model's panic site vocabulary.
